@@ -57,6 +57,20 @@ pub fn run(opts: &Opts) -> Run {
             }
         }
     }
+    // the same dictionaries under SHORT ids: the reference compressor then writes a 1-byte / 2-byte Dictionary_ID field
+    let base_n = dicts.len();
+    for (k, small_id) in [(0usize, 0x2Au32), (1, 0x1234), (2, 0xFF), (3, 0x100)] {
+        if k < base_n {
+            let (mut d, samples, _, content) = dicts[k].clone();
+            d[4..8].copy_from_slice(&small_id.to_le_bytes());
+            if let Ok(p) = Dictionary::decode_dict(&d) {
+                if p.id == small_id {
+                    dicts.push((d, samples, small_id, content));
+                    run.stat("dictionaries_with_short_id", 1);
+                }
+            }
+        }
+    }
     run.stat("dictionaries", dicts.len() as u64);
     if dicts.is_empty() {
         run.notes.push("no dictionary could be trained".into());
@@ -66,8 +80,16 @@ pub fn run(opts: &Opts) -> Run {
     for i in 0..n {
         let di = i % dicts.len();
         let (dict, samples, id, _content) = dicts[di].clone();
-        // data resembling the samples (so the dictionary is actually referenced), or unrelated
-        let data = if rng.chance(3, 4) {
+        // data resembling the samples (so the dictionary is actually referenced), data that BEGINS with the beginning of
+        // the dictionary content (the compressor then emits the farthest legal match: back to the first dictionary byte), or unrelated
+        let data = if i % 4 == 1 {
+            let k_ = (*rng.pick(&[8usize, 40, 300, 5000])).min(_content.len());
+            let mut d = _content[..k_].to_vec();
+            let n_ = rng.below(2000) as usize;
+            d.extend_from_slice(&gen::data(&mut rng, "text", n_));
+            run.stat("data_starting_with_dictionary_start", 1);
+            d
+        } else if rng.chance(3, 4) {
             let mut d = samples[rng.below(samples.len() as u64) as usize].clone();
             let n_ = rng.below(3000) as usize;
             let extra = gen::data(&mut rng, "text", n_);
